@@ -30,7 +30,7 @@ REQUIRED = ['C09_restart_semantics', 'C09_accept_semantics', 'C09_run_restart_se
             'C09_flags_all_equal', 'C09_counter_first_slot', 'C09_budget_exhausted', 'C09_raise_iff',
             'C09_retry_bound', 'C09_run_progress', 'C09_proposal_order', 'C09_restart_iff',
             'C09_accepted_error_below_tol', 'C09_clip_in_range', 'C09_slope_cases', 'C09_rejected_gets_smaller',
-            'C09_block_shares_dt_partial', 'C09_block_shares_dt_refuted']
+            'C09_block_shares_dt_partial', 'C09_block_shares_dt_refuted', 'C09_avoid_restarts_accept']
 
 CANONICAL = ['Scripted', 'Adaptivity', 'StepSizeSlopeLimiter', 'StepSizeLimiter', 'BasicRestartingNonMPI']
 
@@ -196,5 +196,39 @@ def run(ck):
     ck.cov['scripted_block_attempts'] = sum(r['attempts'] for _, _, r in runs)
     ck.cov['scripted_restarted_block_attempts'] = nrestart_blocks
 
-    # ------------------------------------------------------------------ 2. real adaptive runs (oracle only)
+    # ------------------------------------------------------------------ 2. avoid_restarts decision rule: model = real method
+    cases, dcases, text = L.decision_table()
+    rc, out = ck.coqc(ck.write_gen('Decide.v', text), timeout=600)
+    if rc != 0:
+        ck.obligation('Decide.v evaluates', False, out[-1500:])
+        ck.violation('generated decision table does not compile', {'log': out[-3000:]}, match={'kind': 'gen'}, no_input=True)
+    else:
+        ev = eval_outputs(out)
+        mod = [tuple(bool(x) for x in v) for v in parse_coq_value(ev[0])]
+        dmod = [bool(x) for x in parse_coq_value(ev[1])]
+        nbad = 0
+        for (key, got), m in zip(cases, mod):
+            ck.case(key=('decide',) + tuple(sorted(key.items())), nontrivial=key['iter'] >= key['maxiter'])
+            accepted_above = key['iter'] >= key['maxiter'] and got == (False, False) and key['e_est'] >= key['e_tol']
+            if got != m or accepted_above:
+                nbad += 1
+                if nbad <= 2:
+                    ck.violation('AdaptivityBase.determine_restart: at iteration %d (maxiter %d) with estimate %.1e and e_tol %.1e the step '
+                                 'is left with (restart, force_continue) = %s%s' % (key['iter'], key['maxiter'], key['e_est'], key['e_tol'], got,
+                                                                                   ' - neither restarted nor continued although the estimate is not below the tolerance' if accepted_above
+                                                                                   else ', the model says %s' % (m,)),
+                                 {'call': 'Adaptivity.determine_restart on a live step with hand-set status', 'status': key,
+                                  'impl': got, 'model': m},
+                                 match={'kind': 'determine_restart', 'avoid_restarts': key['avoid_restarts'],
+                                        'beyond_maxiter': key['iter'] > key['maxiter']}, no_input=not accepted_above)
+        for (key, got), m in zip(dcases, dmod):
+            ck.case(key=('done',) + tuple(sorted(key.items())), nontrivial=True)
+            if got != m:
+                nbad += 1
+                ck.violation('CheckConvergence.check_convergence differs from the model step_done', {'status': key, 'impl': got, 'model': m},
+                             match={'kind': 'check_convergence'})
+        ck.obligation('adapt_decide / step_done = real determine_restart / check_convergence on %d + %d status settings'
+                      % (len(cases), len(dcases)), nbad == 0, '%d differ' % nbad)
+
+    # ------------------------------------------------------------------ 3. real adaptive runs (oracle only)
     L.real_runs(ck, report)
